@@ -498,6 +498,29 @@ func (m *cacheModel) checkDoSync() {
 		c.useFn(item.host)
 		c.useFn(sweep.host)
 	}
+	// every way out of doSync goes through the sweep: no return between the list loop and the
+	// sweep ("stale list: skip the pruning" would leave vanished objects cached)
+	mustPass := true
+	var gate *ssa.BasicBlock
+	if sweep.call == nil {
+		gate = sweep.loop.Header
+	} else {
+		gate = sweep.call.Block()
+	}
+	for _, b := range fn.Blocks {
+		if _, isRet := b.Instrs[len(b.Instrs)-1].(*ssa.Return); isRet && !gate.Dominates(b) {
+			mustPass = false
+		}
+	}
+	if sweep.call != nil {
+		// and inside the helper every return follows its loop
+		for _, b := range sweep.host.Blocks {
+			if _, isRet := b.Instrs[len(b.Instrs)-1].(*ssa.Return); isRet && !sweep.loop.Header.Dominates(b) {
+				mustPass = false
+			}
+		}
+	}
+	c.check(mustPass, "T-TABLE(doSync.sweep)", "doSync/every-exit-after-the-sweep", pos, "the sweep dominates every return", "doSync can return without sweeping c.items for entries missing from the list: objects that vanished stay cached and no delete event is emitted")
 	m.checkSyncItem(item.host, item.loop)
 	m.checkSyncSweep(sweep.host, sweep.loop)
 	m.checkSyncReturn(fn)
